@@ -175,3 +175,221 @@ VARIANTS["C14"] = [
     E("equality operands swapped", HB, "                    if resource == largest_update_resource:", "                    if largest_update_resource == resource:"),
     E("ignore_data without parentheses", HP, "        ignore_data = (resume_from is not None) and (resource <= resume_from)", "        ignore_data = resume_from is not None and resume_from >= resource"),
 ]
+
+# ------------------------------------------------------------------------------------------------ C03
+VARIANTS["C03"] = [
+    B("compare before insert", HS, "                        rung.add(RungEntry(trial_id=trial_id, metric_val=metric_val))\n                        task_continues = self._task_continues(\n                            trial_id=trial_id,\n                            metric_val=metric_val,\n                            rung=rung,\n                        )",
+      "                        task_continues = self._task_continues(\n                            trial_id=trial_id,\n                            metric_val=metric_val,\n                            rung=rung,\n                        )\n                        rung.add(RungEntry(trial_id=trial_id, metric_val=metric_val))"),
+    B("strict comparison for min", HS, "        return metric_val <= cutoff if self._mode == \"min\" else metric_val >= cutoff", "        return metric_val < cutoff if self._mode == \"min\" else metric_val >= cutoff"),
+    B("same direction for both modes", HS, "        return metric_val <= cutoff if self._mode == \"min\" else metric_val >= cutoff", "        return metric_val <= cutoff if self._mode == \"min\" else metric_val <= cutoff"),
+    B("re-entering a rung", HS, "                if not (resource < milestone or trial_id in rung):", "                if not (resource < milestone):"),
+    B("quantile needs three entries", HS, "        if len_data < 2:\n            return None", "        if len_data < 3:\n            return None"),
+    B("scan all rungs", HS, "            for rung in self._milestone_rungs(skip_rungs):", "            for rung in self._rungs:"),
+    B("max_t may continue", HB, "        if result[self._resource_attr] < self._max_t:\n            ret_dict.update(", "        if result[self._resource_attr] <= self._max_t:\n            ret_dict.update("),
+    B("quantile is next over level", HB, "        promote_quantiles = [x / y for x, y in zip(rung_levels, rung_levels_plus_maxt)]", "        promote_quantiles = [y / x for x, y in zip(rung_levels, rung_levels_plus_maxt)]"),
+    B("rush overrides base decision", HR, "        if not task_continues:\n            return False\n        if self._is_in_points_to_evaluate(trial_id):", "        if self._is_in_points_to_evaluate(trial_id):"),
+    B("id set not updated", HS, "        self.data.add(entry)\n        self._trial_ids.add(entry.trial_id)", "        self.data.add(entry)"),
+    E("dual pair with swapped arms", HS, "        return metric_val <= cutoff if self._mode == \"min\" else metric_val >= cutoff", "        return metric_val >= cutoff if self._mode == \"max\" else metric_val <= cutoff"),
+    E("operands swapped", HS, "        return metric_val <= cutoff if self._mode == \"min\" else metric_val >= cutoff", "        return cutoff >= metric_val if self._mode == \"min\" else cutoff <= metric_val"),
+    E("guard via De Morgan", HS, "                if not (resource < milestone or trial_id in rung):", "                if resource >= milestone and trial_id not in rung:"),
+    E("none test reversed", HS, "        if cutoff is None:\n            return True\n        return metric_val", "        if cutoff is not None:\n            pass\n        else:\n            return True\n        return metric_val"),
+]
+
+# ------------------------------------------------------------------------------------------------ C04
+VARIANTS["C04"] = [
+    B("promotion not marked", HP, "        if trial_id is not None:\n            self._mark_as_promoted(rung, pos)\n            ret_dict = {", "        if trial_id is not None:\n            ret_dict = {"),
+    B("promotable ignores flag", HP, "            if self._is_promotable_trial(entry, resource):\n                result = (entry.trial_id, pos)", "            if True:\n                result = (entry.trial_id, pos)"),
+    B("pause one level late", HP, "            \"task_continues\": not milestone_reached,", "            \"task_continues\": True,"),
+    B("sign flipped", HP, "        sign = 1 - 2 * (self._mode == \"min\")", "        sign = 1 - 2 * (self._mode == \"max\")"),
+    B("equality rejected", HP, "        if result is not None and sign * (metric_val - cutoff) < 0:", "        if result is not None and sign * (metric_val - cutoff) <= 0:"),
+    B("promotion above cap", HP, "            if _milestone < self._effective_max_t():\n                result = self._find_promotable_trial(_rung)", "            if True:\n                result = self._find_promotable_trial(_rung)"),
+    B("rush ignores base", HR, "        task_continues = super()._is_promotable_trial(entry, resource)\n        return self._decider.task_continues(\n            task_continues, entry.trial_id,", "        task_continues = True\n        return self._decider.task_continues(\n            task_continues, entry.trial_id,"),
+    B("pasha cap can shrink", PA, "                self.current_rung_idx += 1", "                self.current_rung_idx -= 1"),
+    B("max_resource not set on promotion", HB, "                extra_kwargs = record.config.copy()\n                extra_kwargs[self.max_resource_attr] = next_milestone", "                extra_kwargs = record.config.copy()"),
+    B("new config although promotable", FI, "        if promote_trial_id is not None:\n            return TrialSuggestion.resume_suggestion(", "        if promote_trial_id is not None and self.time_keeper is None:\n            return TrialSuggestion.resume_suggestion("),
+    E("sign written as conditional", HP, "        sign = 1 - 2 * (self._mode == \"min\")", "        sign = -1 if self._mode == \"min\" else 1"),
+    E("cap test reversed", HP, "            if _milestone < self._effective_max_t():", "            if self._effective_max_t() > _milestone:"),
+    E("accumulate via assignment", HC, "                sum_costs += entry.cost_val", "                sum_costs = sum_costs + entry.cost_val"),
+]
+
+# ------------------------------------------------------------------------------------------------ C05
+VARIANTS["C05"] = [
+    B("next_job may return None", SYM, "        slot_in_rung = self._brackets[bracket_id].next_free_slot()\n        assert slot_in_rung is not None, \"Newly created bracket has to have a free slot\"\n        return bracket_id, slot_in_rung",
+      "        slot_in_rung = self._brackets[bracket_id].next_free_slot()\n        return bracket_id, slot_in_rung"),
+    B("slot overwritten", SYB, "        assert (\n            metric_val is None\n        ), f\"Slot at {pos} already has metric_val = {metric_val}:\\n\" + str(result)\n", ""),
+    B("promote before rung full", SYB, "            self._first_free_pos >= len(rung) and self.num_pending_slots() == 0", "            self._first_free_pos >= len(rung)"),
+    B("sort includes failed", SYB, "            for x in sorted(rung_valid, key=itemgetter(1), reverse=mode == \"max\")[", "            for x in sorted(rung, key=itemgetter(1), reverse=mode == \"max\")["),
+    B("reverse for min", SYB, "reverse=mode == \"max\")[", "reverse=mode == \"min\")["),
+    B("no failed report when no config", SY, "            self._report_as_failed(bracket_id, slot_in_rung)\n        return suggestion", "        return suggestion"),
+    B("pending entry removed before result returned", SY, "                slot_in_rung.metric_val = metric_val\n                self._on_result((bracket_id, slot_in_rung))\n                # Remove it from pending slots\n                del self._trial_to_pending_slot[trial_id]",
+      "                slot_in_rung.metric_val = metric_val\n                # Remove it from pending slots\n                del self._trial_to_pending_slot[trial_id]"),
+    B("brackets do not cycle", SYM, "        offset = bracket_id % self.num_bracket_offsets\n        self._bracket_id_to_offset.append(offset)\n        self._brackets.append(", "        offset = min(bracket_id, self.num_bracket_offsets - 1)\n        self._bracket_id_to_offset.append(offset)\n        self._brackets.append("),
+    B("nan alias", SY, "            metric_val=np.nan,", "            metric_val=np.NAN,"),
+    E("completeness operands swapped", SYB, "            self._first_free_pos >= len(rung) and self.num_pending_slots() == 0", "            self.num_pending_slots() == 0 and len(rung) <= self._first_free_pos"),
+    E("key as lambda", SYB, "key=itemgetter(1), reverse=mode == \"max\")[", "key=lambda x: x[1], reverse=mode == \"max\")["),
+]
+
+# ------------------------------------------------------------------------------------------------ C06
+VARIANTS["C06"] = [
+    B("no postprocessing for resumed", SCH, "            if ret_val.config is not None:\n                ret_val = TrialSuggestion(", "            if ret_val.config is not None and ret_val.spawn_new_trial_id:\n                ret_val = TrialSuggestion("),
+    B("constants dropped", SCH, "        new_config = self.config_space.copy()\n        new_config.update(cast_config_values(config, config_space=self.config_space))", "        new_config = dict()\n        new_config.update(cast_config_values(config, config_space=self.config_space))"),
+    B("initial points from the back", SR, "            return self._points_to_evaluate.pop(0)", "            return self._points_to_evaluate.pop()"),
+    B("random before initial", RG, "        new_config = self._next_initial_config()\n        if new_config is None:\n            new_config = self._get_random_config()", "        new_config = self._get_random_config()\n        if new_config is None:\n            new_config = self._next_initial_config()"),
+    B("duplicates kept in imputation", SR, "        if config_tpl not in excl_set:\n            result.append(config)", "        if True:\n            result.append(config)"),
+    B("returned config not recorded", SBS, "        if not self._allow_duplicates and new_config is not None:\n            self._excl_list.add(new_config)", "        if not self._allow_duplicates and new_config is not None:\n            pass"),
+    B("excluded config returned", SBS, "            if no_exclusion or not exclusion_list.contains(_config):\n                new_config = _config", "            if True:\n                new_config = _config"),
+    B("grid index advanced twice", RG, "            self._next_index += 1\n            if self._all_initial_configs.contains(candidate):\n                candidate = None", "            self._next_index += 1\n            if self._all_initial_configs.contains(candidate):\n                candidate = None\n                self._next_index += 1"),
+    B("grid restarts without allow_duplicates", RG, "            if self._allow_duplicates and self._next_index == num_combinations:", "            if self._next_index == num_combinations:"),
+    B("pbt perturbation not clipped", PBT, "                    new_config[key] = hp_range.cast(\n                        np.clip(\n                            config[key] * multiplier, hp_range.lower, hp_range.upper\n                        )\n                    )", "                    new_config[key] = hp_range.cast(config[key] * multiplier)"),
+    B("failed trials not excluded", "syne_tune/optimizer/schedulers/searchers/bayesopt/datatypes/tuning_job_state.py", "        _elist = [x.trial_id for x in self.pending_evaluations] + self.failed_trials", "        _elist = [x.trial_id for x in self.pending_evaluations]"),
+    E("pop(0) via index", SR, "        if self._points_to_evaluate:\n            return self._points_to_evaluate.pop(0)", "        if len(self._points_to_evaluate) > 0:\n            return self._points_to_evaluate.pop(0)"),
+    E("guard order", SBS, "        if not self._allow_duplicates and new_config is not None:\n            self._excl_list.add(new_config)", "        if new_config is not None and not self._allow_duplicates:\n            self._excl_list.add(new_config)"),
+]
+
+# ------------------------------------------------------------------------------------------------ C07
+VARIANTS["C07"] = [
+    B("decoded value not clipped", HI, "        hp = np.clip(scaling.from_internal(internal_value), lower_bound, upper_bound)", "        hp = scaling.from_internal(internal_value)"),
+    B("integer decode not clipped", HI, "        return int(np.clip(round(value), self.lower_bound, self.upper_bound))", "        return int(round(value))"),
+    B("binary encoder for any categorical", HI, "                elif num_categories == 2:\n                    _cls = HyperparameterRangeCategoricalBinary", "                elif num_categories >= 2:\n                    _cls = HyperparameterRangeCategoricalBinary"),
+    B("nn encoder for one value", HI, "                if isinstance(hp_range, OrdinalNearestNeighbor) and num_categories > 1:", "                if isinstance(hp_range, OrdinalNearestNeighbor):"),
+    B("sampler name collides", CS, "        def __str__(self):\n            return \"ReverseLogUniform\"\n", ""),
+    B("public attribute not a ctor argument", CS, "        self.lower = lower\n        self.upper = upper\n\n    @property\n    def value_type(self):\n        return float", "        self.lower = lower\n        self.upper = upper\n        self.width = upper - lower\n\n    @property\n    def value_type(self):\n        return float"),
+    B("scaling arms swapped", "syne_tune/optimizer/schedulers/searchers/utils/scaling.py", "    if is_log_space(hp_range):\n        return LogScaling()\n    elif is_reverse_log_space(hp_range):\n        return ReverseLogScaling()", "    if is_log_space(hp_range):\n        return ReverseLogScaling()\n    elif is_reverse_log_space(hp_range):\n        return LogScaling()"),
+    B("grid name unresolved", CS, "    elif sampler_cls == \"Grid\":\n        return Grid()\n", ""),
+    B("truncating cast", CS, "    def cast(self, value):\n        return int(round(value))", "    def cast(self, value):\n        return int(value + 0.5)"),
+    E("clip with keyword args", HI, "        hp = np.clip(scaling.from_internal(internal_value), lower_bound, upper_bound)", "        hp = np.clip(scaling.from_internal(internal_value), lower_bound, upper_bound)  # stays inside"),
+    E("rint instead of round", HI, "            return int(np.round(y))", "            return int(np.rint(y))"),
+    E("dispatch test reordered", HI, "                elif num_categories == 2:\n                    _cls = HyperparameterRangeCategoricalBinary", "                elif 2 == num_categories:\n                    _cls = HyperparameterRangeCategoricalBinary"),
+]
+
+# ------------------------------------------------------------------------------------------------ C08
+VARIANTS["C08"] = [
+    B("missing transpose", PU, "    posterior_means = anp.matmul(anp.transpose(linv_k_tr_te), pred_mat) + anp.reshape(", "    posterior_means = anp.matmul(linv_k_tr_te, pred_mat) + anp.reshape("),
+    B("variance summed over wrong axis", PU, "        anp.square(linv_k_tr_te), axis=0\n    )\n    return posterior_means, anp.reshape(", "        anp.square(linv_k_tr_te), axis=1\n    )\n    return posterior_means, anp.reshape("),
+    B("variance floor removed", PU, "        anp.maximum(posterior_variances, MIN_POSTERIOR_VARIANCE), (-1,)", "        posterior_variances, (-1,)"),
+    B("variance depends on targets", PU, "        anp.square(linv_k_tr_te), axis=0\n    )\n    return posterior_means, anp.reshape(", "        anp.square(linv_k_tr_te), axis=0\n    ) + 0.0 * anp.sum(pred_mat)\n    return posterior_means, anp.reshape("),
+    B("kernel arguments swapped", PU, "    k_tr_te = _kernel(features, test_features) * covariance_scale\n    linv_k_tr_te = aspl.solve_triangular(chol_fact, k_tr_te, lower=True)\n    posterior_means", "    k_tr_te = _kernel(test_features, features) * covariance_scale\n    linv_k_tr_te = aspl.solve_triangular(chol_fact, k_tr_te, lower=True)\n    posterior_means"),
+    B("update uses other target", PU, "        target=target,\n        lvec=lvec,", "        target=pred_mean,\n        lvec=lvec,"),
+    B("new row prepended", PU, "    pred_mat_new = anp.concatenate([pred_mat, pvec], axis=0)", "    pred_mat_new = anp.concatenate([pred_mat, pvec], axis=1)"),
+    E("dot instead of matmul", PU, "    posterior_means = anp.matmul(anp.transpose(linv_k_tr_te), pred_mat) + anp.reshape(", "    posterior_means = anp.dot(anp.transpose(linv_k_tr_te), pred_mat) + anp.reshape("),
+    E("renamed temporary", PU, "    sqnorm_predmat = anp.sum(anp.square(pred_mat))", "    sqnorm_predmat = anp.sum(anp.square(pred_mat))  # ||P||^2"),
+]
+
+# ------------------------------------------------------------------------------------------------ C10
+VARIANTS["C10"] = [
+    B("advance without sign check", TK, "        assert step >= 0\n        self._current_time += step", "        self._current_time += step"),
+    B("advance_to may go back", TK, "        self._current_time = max(to_time, self._current_time)", "        self._current_time = to_time"),
+    B("counter not incremented", EV, "        heapq.heappush(self.event_heap, (event_time, self.events_added, event))\n        self.events_added += 1", "        heapq.heappush(self.event_heap, (event_time, self.events_added, event))"),
+    B("tie-break dropped", EV, "(event_time, self.events_added, event))", "(event_time, 0, event))"),
+    B("seed redrawn", TAB, "            seed = self._seed_for_trial.get(trial_id)\n            if seed is None:", "            seed = self._seed_for_trial.get(trial_id)\n            if not seed:"),
+    B("exit not marked", SB, "        logger.debug(f\"Simulated time since start: {_time_start:.2f} secs\")\n        self._time_keeper.mark_exit()", "        logger.debug(f\"Simulated time since start: {_time_start:.2f} secs\")"),
+    B("outside time charged twice", SB, "        self._advance_by_outside_time()\n        # Process all events in the past\n        self._process_events_until_now()\n        _time_start", "        self._advance_by_outside_time()\n        self._advance_by_outside_time()\n        # Process all events in the past\n        self._process_events_until_now()\n        _time_start"),
+    B("foreign clock advance", RC, "        self.results.append(result)\n\n        if self.csv_file is not None:", "        self.results.append(result)\n        if self._tuner is not None:\n            self._tuner.trial_backend.time_keeper.advance(1.0)\n\n        if self.csv_file is not None:"),
+    B("table row shared", "syne_tune/blackbox_repository/utils.py", "            res_dict = dict(zip(blackbox.objectives_names, objective_values[fidelity]))", "            res_dict = objective_values[fidelity]"),
+    E("assert as if-raise", TK, "        assert step >= 0\n        self._current_time += step", "        assert 0 <= step\n        self._current_time += step"),
+    E("max arguments swapped", TK, "        self._current_time = max(to_time, self._current_time)", "        self._current_time = max(self._current_time, to_time)"),
+]
+
+# ------------------------------------------------------------------------------------------------ C11
+VARIANTS["C11"] = [
+    B("global draw in scheduler", HB, "        distribution = self._scheduler.bracket_distribution()\n        return self.random_state.choice(a=distribution.size, p=distribution)", "        distribution = self._scheduler.bracket_distribution()\n        return np.random.choice(a=distribution.size, p=distribution)"),
+    B("sampler without generator", SBS, "            return sample_random_configuration(\n                hp_ranges=self._hp_ranges,\n                random_state=self.random_state,\n                exclusion_list=exclusion_list,\n            )", "            return sample_random_configuration(\n                hp_ranges=self._hp_ranges,\n                random_state=None,\n                exclusion_list=exclusion_list,\n            )"),
+    B("literal seed", PBT, "        self._random_state = np.random.RandomState(self.random_seed_generator())", "        self._random_state = np.random.RandomState(31415927)"),
+    B("internal searcher keeps own stream", MB, "            self._random_searcher.set_random_state(self.random_state)", "            pass"),
+    B("unsorted set of ids", PA, "                for pair in itertools.combinations(\n                    sorted(self.epoch_to_trials[epoch]), 2\n                ):", "                for pair in itertools.combinations(\n                    self.epoch_to_trials[epoch], 2\n                ):"),
+    B("class-level shared state", PBT, "        self._trial_decisions_stack = deque()", "        PopulationBasedTraining._shared_stack = deque()\n        self._trial_decisions_stack = PopulationBasedTraining._shared_stack"),
+    B("seed fallback on falsy", SS, "        if random_seed is None:\n            random_seed = generate_random_seed()", "        if not random_seed:\n            random_seed = generate_random_seed()"),
+    E("sorted with key", PA, "                    sorted(self.epoch_to_trials[epoch]), 2", "                    sorted(self.epoch_to_trials[epoch], key=str), 2"),
+    E("is None written the other way", SS, "        if random_seed is None:\n            random_seed = generate_random_seed()", "        if random_seed is not None:\n            pass\n        else:\n            random_seed = generate_random_seed()"),
+]
+
+# ------------------------------------------------------------------------------------------------ C15
+VARIANTS["C15"] = [
+    B("quantile q not mirrored", HS, "        q = self.prom_quant if self._is_min else 1 - self.prom_quant", "        q = self.prom_quant if self._is_min else self.prom_quant"),
+    B("window fraction not mirrored", HS, "            left_pos = len_data - index - 1\n            g = 1 - frac_part", "            left_pos = len_data - index - 1\n            g = frac_part"),
+    B("sort key sign lost", HS, "        sign = 1 if self._is_min else -1", "        sign = 1 if self._is_min else 1"),
+    B("pbt sign constant", PBT, "        self._metric_op = 1.0 if self.mode == \"max\" else -1.0", "        self._metric_op = 1.0 if self.mode == \"max\" else 1.0"),
+    B("best metric sort not mirrored", TS, "        metric_per_trial = sorted(metric_per_trial, key=lambda x: -x[1])", "        metric_per_trial = sorted(metric_per_trial, key=lambda x: x[1])"),
+    B("best config argmin for both", ER, "            best_index = self.results.loc[:, metric_name].argmax()", "            best_index = self.results.loc[:, metric_name].argmin()"),
+    B("rush better for max uses min", HR, "            better_val = max(\n                float(\"-inf\") if val1 is None else val1,", "            better_val = min(\n                float(\"-inf\") if val1 is None else val1,"),
+    B("median rule negates for min", MS, "        if self.mode == \"max\":\n            new_metric *= -1", "        if self.mode == \"max\":\n            new_metric *= 1"),
+    B("dehb sign used additively", DE, "                if metric_sign * (metric_val - target_metric_val) >= 0:", "                if metric_sign + (metric_val - target_metric_val) >= 0:"),
+    B("pasha ranking not reversed", PA, "                    values_ranking = list(range(len(trial_ids) - 1, -1, -1))", "                    values_ranking = list(range(len(trial_ids)))"),
+    E("sign via arithmetic", HS, "        sign = 1 if self._is_min else -1", "        sign = -1 if not self._is_min else 1"),
+    E("mode test on max", PBT, "        self._metric_op = 1.0 if self.mode == \"max\" else -1.0", "        self._metric_op = -1.0 if self.mode == \"min\" else 1.0"),
+    E("q arms swapped", HS, "        q = self.prom_quant if self._is_min else 1 - self.prom_quant", "        q = 1 - self.prom_quant if not self._is_min else self.prom_quant"),
+]
+
+# ------------------------------------------------------------------------------------------------ C16
+VARIANTS["C16"] = [
+    B("state key renamed on one side", RG, "            next_index=self._next_index,", "            next_idx=self._next_index,"),
+    B("key written but not restored", SBS, "        self.random_state.set_state(state[\"random_state\"])", "        pass"),
+    B("grid clone with default seed", RG, "        new_searcher.hp_values_combinations = self.hp_values_combinations.copy()\n", ""),
+    B("allow_duplicates dropped", RG, "            shuffle_config=self._shuffle_config,\n            allow_duplicates=self._allow_duplicates,\n        )", "            shuffle_config=self._shuffle_config,\n        )"),
+    B("debug_log None passed", RG, "            debug_log=False if self._debug_log is None else self._debug_log,", "            debug_log=self._debug_log,"),
+    B("co-initialised attribute forgotten", SBS, "            self._restrict_configurations = state[k]\n            self._rc_returned_pos = set()\n        else:\n            self._restrict_configurations = None\n            self._rc_returned_pos = None", "            self._restrict_configurations = state[k]\n        else:\n            self._restrict_configurations = None"),
+    B("exclusion list keys differ", "syne_tune/optimizer/schedulers/searchers/utils/exclusion_list.py", "            \"excl_set\": list(self.excl_set),", "            \"excluded\": list(self.excl_set),"),
+    B("model param key differs", "syne_tune/optimizer/schedulers/searchers/bayesopt/gpautograd/mean.py", "        self.set_mean_value(param_dict[\"mean_value\"])", "        self.set_mean_value(param_dict[\"mean\"])"),
+    B("pending not decoded", "syne_tune/optimizer/schedulers/searchers/gp_searcher_utils.py", "        \"pending_evaluations\": pending_evaluations,\n    }", "        \"pending\": pending_evaluations,\n    }"),
+    E("state dict built with literal", "syne_tune/optimizer/schedulers/searchers/searcher_base.py", "        return dict(\n            super().get_state(),\n            random_state=self.random_state.get_state(),\n        )", "        state = super().get_state()\n        state[\"random_state\"] = self.random_state.get_state()\n        return state"),
+    E("ctor argument order", RG, "            shuffle_config=self._shuffle_config,\n            allow_duplicates=self._allow_duplicates,\n        )", "            allow_duplicates=self._allow_duplicates,\n            shuffle_config=self._shuffle_config,\n        )"),
+]
+
+# ------------------------------------------------------------------------------------------------ C17
+VARIANTS["C17"] = [
+    B("decision column missing", RC, "        result[ST_DECISION] = decision\n", ""),
+    B("trial id column wrong", RC, "        result[ST_TRIAL_ID] = trial.trial_id", "        result[ST_TRIAL_ID] = status"),
+    B("config columns only for floats", RC, "        for key in trial.config:\n            result[f\"config_{key}\"] = trial.config[key]", "        for key in trial.config:\n            if isinstance(trial.config[key], float):\n                result[f\"config_{key}\"] = trial.config[key]"),
+    B("results not stored at end", RC, "        # they are saved every ``results_update_interval`` seconds)\n        self.store_results()", "        # they are saved every ``results_update_interval`` seconds)\n        pass"),
+    B("max computed with min", TS, "                    self.max_metrics[metric_name] = max(\n                        self.max_metrics.get(metric_name, -np_inf), current_metric", "                    self.max_metrics[metric_name] = min(\n                        self.max_metrics.get(metric_name, -np_inf), current_metric"),
+    B("count per metric", TS, "        self.last_metrics = metrics\n        self.count += 1", "        self.last_metrics = metrics\n        self.count += len(metrics)"),
+    B("per-trial statistics not fed", TS, "            self.overall_metric_statistics.add(new_result)\n            self.trial_metric_statistics[trial_id].add(new_result)", "            self.overall_metric_statistics.add(new_result)"),
+    B("mode of first metric for all", UT, "        metric_mode = metric_mode[metric_index]", "        metric_mode = metric_mode[0]"),
+    B("best config of other trial", T, "        config = self.trial_backend._trial_dict[trial_id].config", "        config = self.trial_backend._trial_dict[0].config"),
+    E("row keys in other order", RC, "        result[ST_DECISION] = decision\n        result[ST_STATUS] = status\n", "        result[ST_STATUS] = status\n        result[ST_DECISION] = decision\n"),
+    E("sum with operands swapped?", TS, "        self.last_metrics = metrics\n        self.count += 1", "        self.last_metrics = metrics\n        self.count += 1  # one per result"),
+]
+
+# ------------------------------------------------------------------------------------------------ C18
+VARIANTS["C18"] = [
+    B("writer tag differs", RP, "    print(f\"[{ST_SAGEMAKER_METRIC_TAG}]: {_serialize_report_dict(kwargs)}\")", "    print(f\"[{ST_SAGEMAKER_METRIC_TAG}] {_serialize_report_dict(kwargs)}\")"),
+    B("regex anchored", RP, "    regex = r\"\\[\" + ST_SAGEMAKER_METRIC_TAG + r\"\\]: (\\{.*\\})\"", "    regex = r\"^\\[\" + ST_SAGEMAKER_METRIC_TAG + r\"\\]: (\\{.*\\})\""),
+    B("indent in json", UT, "        return json.dumps(x, default=np_encoder)", "        return json.dumps(x, default=np_encoder, indent=2)"),
+    B("namespace check after stores", RP, "        assert not any(key.startswith(\"st_\") for key in kwargs), (\n            \"The metric prefix 'st_' is used by Syne Tune internals, \"\n            \"please use a metric name that does not start with 'st_'.\"\n        )\n        kwargs[ST_WORKER_TIMESTAMP] = time()", "        kwargs[ST_WORKER_TIMESTAMP] = time()"),
+    B("counter not incremented", RP, "        kwargs[ST_WORKER_ITER] = self.iter\n        self.iter += 1", "        kwargs[ST_WORKER_ITER] = self.iter"),
+    B("counter only with time", RP, "        self.iter = 0\n        if self.add_time:\n            self.start = perf_counter()", "        if self.add_time:\n            self.iter = 0\n            self.start = perf_counter()"),
+    B("default hook returns None", UT, "        raise TypeError(\n            f\"Object of type {obj.__class__.__name__} is not JSON serializable\"\n        )\n", ""),
+    B("size check after return", RP, "        assert sys.getsizeof(report_str) < 50_000\n        return report_str", "        return report_str"),
+    B("print without newline", RP, "    print(f\"[{ST_SAGEMAKER_METRIC_TAG}]: {_serialize_report_dict(kwargs)}\")\n", "    print(f\"[{ST_SAGEMAKER_METRIC_TAG}]: {_serialize_report_dict(kwargs)}\", end=\"\")\n"),
+    E("tag prefix built by concatenation", RP, "    regex = r\"\\[\" + ST_SAGEMAKER_METRIC_TAG + r\"\\]: (\\{.*\\})\"", "    regex = \"\\\\[\" + ST_SAGEMAKER_METRIC_TAG + \"\\\\]: (\\\\{.*\\\\})\""),
+    E("increment written out", RP, "        self.iter += 1\n        _report_logger(**kwargs)", "        self.iter = self.iter + 1\n        _report_logger(**kwargs)"),
+]
+
+# ------------------------------------------------------------------------------------------------ C19
+VARIANTS["C19"] = [
+    B("strict dominance in all", ND, "            dominated = np.all(allocation <= X[mask], axis=1) * np.any(", "            dominated = np.all(allocation < X[mask], axis=1) * np.any("),
+    B("dominated rows still dominate", ND, "        if mask[i]:\n            # An allocation is dominated", "        if True:\n            # An allocation is dominated"),
+    B("front not removed", ND, "        remaining = remaining[~pareto_mask]", "        remaining = remaining[1:]"),
+    B("priority is the order", MP, "        priorities = np.full(objectives.shape[0], len(order), dtype=int)\n        priorities[order] = np.arange(len(order))\n        return priorities", "        return np.array(order)"),
+    B("rank read at first position", MO, "                    new_priority_rank = ranks[-1]", "                    new_priority_rank = ranks[0]"),
+    B("stop threshold inverted", MO, "                    if new_priority_rank > 1 / self.rf:", "                    if new_priority_rank < 1 / self.rf:"),
+    B("trial not recorded when stopped", MO, "                        action = SchedulerDecision.STOP\n                recorded[trial_id] = metrics", "                        action = SchedulerDecision.STOP\n                        break\n                recorded[trial_id] = metrics"),
+    B("signs for list mode inverted", MO, "                metric: 1 if mode == \"min\" else -1", "                metric: 1 if mode == \"max\" else -1"),
+    E("and instead of product", ND, "            dominated = np.all(allocation <= X[mask], axis=1) * np.any(\n                allocation < X[mask], axis=1\n            )", "            dominated = np.all(allocation <= X[mask], axis=1) & np.any(\n                allocation < X[mask], axis=1\n            )"),
+    E("inversion by loop", MP, "        priorities[order] = np.arange(len(order))\n        return priorities", "        for rank, item in enumerate(order):\n            priorities[item] = rank\n        return priorities"),
+]
+
+# ------------------------------------------------------------------------------------------------ C20
+VARIANTS["C20"] = [
+    B("pause deletes checkpoint", TB, "        self._pause_trial(trial_id=trial_id, result=result)\n        self._cleanup_after_trial(trial_id)", "        self._pause_trial(trial_id=trial_id, result=result)\n        if self.delete_checkpoints:\n            self.delete_checkpoint(trial_id=trial_id)\n        self._cleanup_after_trial(trial_id)"),
+    B("delete regardless of flag", TB, "        if self.delete_checkpoints:\n            logger.info(f\"Removing checkpoints for trial_id = {trial_id}\")\n            self.delete_checkpoint(trial_id=trial_id)", "        if True:\n            logger.info(f\"Removing checkpoints for trial_id = {trial_id}\")\n            self.delete_checkpoint(trial_id=trial_id)"),
+    B("copy after schedule", TB, "        if checkpoint_trial_id is not None:\n            self.copy_checkpoint(\n                src_trial_id=checkpoint_trial_id, tgt_trial_id=trial_id\n            )\n        self.trial_ids.append(trial_id)\n        self._schedule(trial_id=trial_id, config=config)\n        now = datetime.now()",
+      "        self.trial_ids.append(trial_id)\n        self._schedule(trial_id=trial_id, config=config)\n        if checkpoint_trial_id is not None:\n            self.copy_checkpoint(\n                src_trial_id=checkpoint_trial_id, tgt_trial_id=trial_id\n            )\n        now = datetime.now()"),
+    B("callback deletes promoted too", "syne_tune/callbacks/remove_checkpoints_callback.py", "        for trial_id in self._tuner.scheduler.trials_checkpoints_can_be_removed():\n            self._tuner.trial_backend.delete_checkpoint(trial_id)", "        for trial_id in self._tuner.scheduler.trials_checkpoints_can_be_removed():\n            self._tuner.trial_backend.delete_checkpoint(trial_id)\n            self._tuner.trial_backend.delete_checkpoint(trial_id + 1)"),
+    B("released before rung complete", SYB, "        if is_complete:\n            self.current_rung += 1", "        if True:\n            self.current_rung += 1"),
+    B("list not emptied", SY, "        result = self._trials_checkpoints_can_be_removed\n        self._trials_checkpoints_can_be_removed = []\n        return result", "        result = self._trials_checkpoints_can_be_removed\n        return result"),
+    B("remaining includes promoted", SYB, "    remaining_list = [x[0] for x in rung if x[0] not in top_set]", "    remaining_list = [x[0] for x in rung]"),
+    B("resume of non-paused", TB, "        assert (\n            trial.status == Status.paused\n        ), f\"Cannot resume trial_id {trial_id} from status '{trial.status}', must be '{Status.paused}'\"\n", ""),
+    E("flag test reversed", TB, "        if self.delete_checkpoints:\n            logger.info(f\"Removing checkpoints for trial_id = {trial_id}\")", "        if not (not self.delete_checkpoints):\n            logger.info(f\"Removing checkpoints for trial_id = {trial_id}\")"),
+    E("set built with comprehension name", SYB, "    top_set = set(top_list)\n    remaining_list = [x[0] for x in rung if x[0] not in top_set]", "    promoted = set(top_list)\n    remaining_list = [x[0] for x in rung if x[0] not in promoted]"),
+]
